@@ -248,6 +248,29 @@ pub fn run(s: &mut Session, ctx: &Ctx) {
             || format!("{:?} vs {:?}; hues {:?} vs {:?}", r1, r2, c1.to_hsla().h, c2.to_hsla().h),
         );
     }
+    // ---- the short constructors are the full ones with alpha 1 ----
+    for _ in 0..(if ctx.thorough { 20_000 } else { 1_000 }) {
+        let (a, b, c) = (gen::coord(&mut rng, 0.0, 360.0), gen::coord(&mut rng, 0.0, 1.0), gen::coord(&mut rng, 0.0, 1.0));
+        let same = |x: &Color, y: &Color| x.to_hsla() == y.to_hsla() || (x.to_hsla().h.is_nan() && y.to_hsla().h.is_nan());
+        s.count_case("", true);
+        let pairs = ops::guard(|| {
+            vec![
+                ("from_hsl", Color::from_hsl(a, b, c), Color::from_hsla(a, b, c, 1.0)),
+                ("from_hsv", Color::from_hsv(a, b, c), Color::from_hsva(a, b, c, 1.0)),
+                ("from_rgb_float", Color::from_rgb_float(b, c, a / 360.0), Color::from_rgba_float(b, c, a / 360.0, 1.0)),
+                ("from_rgb", Color::from_rgb((a as i64 % 256) as u8, (b * 255.0) as u8, (c * 255.0) as u8), Color::from_rgba((a as i64 % 256) as u8, (b * 255.0) as u8, (c * 255.0) as u8, 1.0)),
+            ]
+        });
+        match pairs {
+            None => s.fail("no-panic", "Color::from_*", format!("({:?},{:?},{:?})", a, b, c), "panic".into()),
+            Some(ps) => {
+                for (name, x, y) in ps {
+                    s.check(same(&x, &y), "short-constructor-is-full-constructor-with-alpha-1", &format!("Color::{}", name), || format!("{}({:?},{:?},{:?})", name, a, b, c), || format!("{:?} vs {:?}", x.to_hsla(), y.to_hsla()));
+                    check_valid(s, &format!("Color::{}", name), &format!("{}({:?},{:?},{:?})", name, a, b, c), &x);
+                }
+            }
+        }
+    }
     // ---- LCh hue at the 0/360 seam: colours whose Lab b is within a few rounding steps of zero
     // (a > 0), found by bisecting the HSL hue; atan2 of a tiny negative b must still map below 360 ----
     let n_seam = if ctx.thorough { 6000 } else { 250 };
